@@ -572,7 +572,7 @@ func heldBytes(n, B, T, chunk, delay int) (uint64, error) {
 }
 
 func TestProp_Memory(t *testing.T) {
-	ev.Describe("memory", "streams of N >= 2 MiB (N >= 256*(B+T)) in tokens of length T, every shifted token freed (immediately or delayed by <= 3 tokens), buffer size B in {0,1,16,64,4096,65536}, T in 1..20000, reader chunk in {1..100000}; oracle: live heap after GC with the lexer still reachable minus the baseline <= 16*(delay+1)*(B+T) + 256 KiB (bounded by buffer size plus the unfreed tokens, not by the stream: a retained stream would be >= 2 MiB and >= 128*(B+T)), and in a quarter of the cases with chunk >= 13 the same run over a 4 times longer stream holds at most 25% + 64 KiB more; non-trivial = every case (distinct by parameters)")
+	ev.Describe("memory", "streams of N >= 2 MiB (N >= 256*(B+T)) in tokens of length T, every shifted token freed (immediately or delayed by <= 3 tokens), buffer size B in {0,1,16,64,4096,65536}, T in 1..20000, reader chunk in {1..100000}; oracle: live heap after GC with the lexer still reachable minus the baseline <= 16*(delay+1)*(B+T) + 256 KiB (bounded by buffer size plus the unfreed tokens, not by the stream: a retained stream would be >= 2 MiB and >= 128*(B+T)), and in a quarter of the cases with chunk >= 13 the same run over a 4 times longer stream holds at most 25% + 64 KiB + 2*(delay+2)*(B+T) more (the phase of the block cycle at the end); non-trivial = every case (distinct by parameters)")
 	ev.Check(t, 60, func(t *rapid.T) {
 		B := rapid.SampledFrom([]int{0, 1, 16, 64, 4096, 65536}).Draw(t, "B")
 		T := rapid.OneOf(rapid.IntRange(1, 16), rapid.IntRange(1, 300), rapid.IntRange(1000, 20000)).Draw(t, "T")
@@ -605,7 +605,8 @@ func TestProp_Memory(t *testing.T) {
 			if err != nil {
 				t.Fatalf("B=%d T=%d chunk=%d delay=%d: %v", B, T, chunk, delay, err)
 			}
-			if got4 > got+got/4+64<<10 {
+			// what is held at the end also depends on where in its block cycle the lexer stops: up to delay+2 blocks more or less
+			if got4 > got+got/4+64<<10+uint64(2*(delay+2)*(B+T)) {
 				t.Fatalf("B=%d T=%d chunk=%d delay=%d: %d bytes held after %d bytes of stream, %d after %d bytes: grows with the stream", B, T, chunk, delay, got, n, got4, 4*n)
 			}
 			ev.Count("memory", "growth-compared", 1)
